@@ -14,7 +14,16 @@ for i, name in enumerate(sorted(d for d in os.listdir(root) if d.startswith(pid 
     os.makedirs(dst)
     for f in ("patch.diff", "demo.py", "NOTES.md"):
         shutil.copy(os.path.join(src, f), dst)
+    auto = ""
+    try:
+        import re
+        notes = open(os.path.join(dst, "NOTES.md"), encoding="utf-8", errors="replace").read()
+        cand = [l.strip(" -*#") for l in notes.splitlines()
+                if re.search(r"\b(needs?|trigger|manifest|only (shows|when|for)|requires?)\b", l, re.I) and len(l.strip()) > 25]
+        auto = (cand[0] if cand else notes.strip().splitlines()[0].strip(" #"))[:300]
+    except Exception:
+        pass
     meta = {"id": name, "property": pid, "origin": "fresh sub-agent given only the property text and a scratch worktree",
-            "needs": needs.get(name, pos[i] if i < len(pos) else ""), "notes_file": "NOTES.md"}
+            "needs": needs.get(name, pos[i] if i < len(pos) else auto), "notes_file": "NOTES.md"}
     json.dump(meta, open(os.path.join(dst, "meta.json"), "w"), indent=1)
     print("imported", dst)
